@@ -91,17 +91,43 @@ func knownFindingCases() map[string]cropCase {
 	}
 }
 
+// pendingFindingCases: minimal reproducers of findings that wait for triage; written by
+//
+//	VERIF_C10_WRITE_PENDING=1 go test -tags verif ./props/c10 -run TestWritePendingFindingRepros
+//
+// to /verif/replay/C10/pending/new-<name>.json (a directory the driver does not replay).
+func pendingFindingCases() map[string]cropCase {
+	return map[string]cropCase{
+		// durations 10,10,0,10,10 ms, sync samples 1, 3 and 4, -d 20: sample 3 (duration 0) is the first sync
+		// sample that starts at or after 20 ms, so the end time is 20 ms and samples 1..2 start before it;
+		// GetSampleNrAtTime(20) answers 4, the tool keeps 3 samples
+		"zero-duration-sample-starts-at-cut-time": kfCase(20,
+			[]mp4build.Track{kfTrack(1, "vide", 1000, []uint32{10, 10, 0, 10, 10}, []int{1, 3, 4})},
+			[]mp4build.TrackLayout{{ChunkSizes: []int{5}, CttsVersion: -1, Stss: true}}),
+	}
+}
+
+func TestWritePendingFindingRepros(t *testing.T) {
+	if os.Getenv("VERIF_C10_WRITE_PENDING") == "" {
+		t.Skip("VERIF_C10_WRITE_PENDING not set")
+	}
+	writeRepros(t, harness.E.VerifDir+"/replay/C10/pending", "new-", pendingFindingCases())
+}
+
 func TestWriteKnownFindingRepros(t *testing.T) {
 	if os.Getenv("VERIF_C10_WRITE_KF") == "" {
 		t.Skip("VERIF_C10_WRITE_KF not set")
 	}
+	writeRepros(t, harness.E.VerifDir+"/replay/C10", "kf-", knownFindingCases())
+}
+
+func writeRepros(t *testing.T, dir, prefix string, cases map[string]cropCase) {
 	needBin(t, "mp4ff-crop")
 	defer cleanupTmp()
-	dir := harness.E.VerifDir + "/replay/C10"
 	if err := os.MkdirAll(dir, 0o755); err != nil {
 		t.Fatal(err)
 	}
-	for name, c := range knownFindingCases() {
+	for name, c := range cases {
 		c := c
 		f := harness.Guarded(func() *harness.Fail { return checkCrop(c) })
 		if f == nil {
@@ -114,7 +140,7 @@ func TestWriteKnownFindingRepros(t *testing.T) {
 			msg = msg[:i]
 		}
 		b, _ := json.MarshalIndent(harness.ReplayFile{Property: "C10", Kind: "crop", Key: f.Key, Msg: msg, Case: raw}, "", " ")
-		if err := os.WriteFile(dir+"/kf-"+name+".json", append(b, '\n'), 0o644); err != nil {
+		if err := os.WriteFile(dir+"/"+prefix+name+".json", append(b, '\n'), 0o644); err != nil {
 			t.Fatal(err)
 		}
 		t.Logf("%s: %s -- %s", name, f.Key, msg)
